@@ -1105,7 +1105,7 @@ pub fn c03_edge_pairs(seed: u64, nvals: u64) -> Phase {
 /// and without a macro head. Counts - not values, positions or lengths - are what a fixed-capacity buffer,
 /// a narrow counter or a "cannot happen more than capacity / 2 times" estimate depends on.
 pub fn c05_repeated_atoms() -> Phase {
-    const NATOMS: u64 = 24;
+    const NATOMS: u64 = 32;
     // around powers of two, and around round decimal numbers (limits are written in decimal as often as in binary)
     const EXTRA: [u64; 40] = [
         2047, 2048, 2049, 4095, 4096, 4097, 8191, 8192, 8193, 16384, 32767, 32768, 32769, 65535, 65537, 1997, 1998, 1999, 2000, 2001, 4999, 5000, 5001, 9997, 9998,
@@ -1124,8 +1124,32 @@ pub fn c05_repeated_atoms() -> Phase {
         if macro_head {
             data.push(236);
         }
-        for _ in 0..n {
+        // the designator of charset number e (one-, two- or three-codeword form)
+        fn eci(data: &mut Vec<u8>, e: usize) {
+            data.push(241);
+            if e <= 126 {
+                data.push(e as u8 + 1);
+            } else if e <= 16382 {
+                data.push(((e - 127) / 254 + 128) as u8);
+                data.push(((e - 127) % 254 + 1) as u8);
+            } else {
+                let e = (e - 16383) % (16 * 254 * 254);
+                data.push((e / 64516 + 192) as u8);
+                data.push(((e / 254) % 254 + 1) as u8);
+                data.push((e % 254 + 1) as u8);
+            }
+        }
+        for j in 0..n {
             match atom {
+                // the same construct with a DIFFERENT parameter every time: n distinct values, not n copies of one
+                24 => { eci(&mut data, j); data.push(0x42); }        // charsets 0, 1, 2, ... each with a character
+                25 => eci(&mut data, j),                             // ... and without
+                26 => { eci(&mut data, 127 + j); data.push(0x42); }  // distinct two-codeword designators
+                27 => { eci(&mut data, 16383 + j * 251); data.push(0x42); } // distinct three-codeword designators
+                28 => { eci(&mut data, 2 + j % 28); data.extend_from_slice(&[235, 0x45]); } // cycling through the low charsets, a high byte each
+                29 => { let v = (j * 40 + 1) % 65535; data.extend_from_slice(&[230, (v >> 8) as u8, (v & 0xFF) as u8, 254]); } // C40 segments, a different triple each
+                30 => data.extend_from_slice(&[235, 1 + (j % 128) as u8]), // upper shift of every byte in turn
+                31 => { data.push(231); let p = data.len() + 1; data.push(rand255(1, p)); let p = data.len() + 1; data.push(rand255((j % 256) as u8, p)); } // Base256 segments of one byte, every byte in turn
                 0 => data.extend_from_slice(&[241, 27]),            // ECI 26
                 1 => data.extend_from_slice(&[241, 4, 0x42]),       // ECI 3 + a character
                 2 => data.extend_from_slice(&[241, 128, 1]),        // two-byte designator
@@ -1421,14 +1445,19 @@ pub fn c05_pad_structures() -> Phase {
 /// captured quiet zone or a crop taken too wide -, with the outer ring of the symbol cut away, and magnified (every
 /// module drawn as 2x2, 3x3, 4x4 pixels).
 pub fn framed_symbols(prop: &'static str, seed: u64) -> Phase {
-    let per_size: u64 = 3 * 3 + 1 + 3;
+    // anisotropic magnifications (pixels wide, pixels high), encoded for Op::GeoScale as kx + 16 * ky
+    const STRETCH: [(u32, u32); 10] = [(2, 1), (1, 2), (3, 1), (1, 3), (4, 1), (1, 4), (2, 3), (3, 2), (2, 4), (4, 2)];
+    let per_size: u64 = 3 * 3 + 1 + 3 + STRETCH.len() as u64;
     let total = N_SIZES as u64 * per_size;
     let make = move |_ctx: &Ctx, i: u64| -> Trace {
         let si = (i / per_size) as usize;
         let r = i % per_size;
         let s = &SIZES[si];
         let mut faults = Vec::new();
-        if r < 9 {
+        if r >= 13 {
+            let (kx, ky) = STRETCH[(r - 13) as usize];
+            faults.push(Fault::new("geo_frame", Op::GeoScale { k: kx + 16 * ky }));
+        } else if r < 9 {
             faults.push(Fault::new("geo_frame", Op::GeoFrame { n: (r / 3 + 1) as u32, fill: (r % 3) as u32 }));
         } else if r >= 10 {
             // the symbol magnified: every module drawn as 2x2, 3x3, 4x4 pixels
